@@ -13,6 +13,7 @@ CLAIMED={
  'C12':('exploration','same byte stream under several read schedules to the real parser (raw and through bufio) and through an engine\'s readLoop behind simnet; metamorphic + model oracle'),
  'C16':('exploration','real memory/file/SQL stores vs. a reference model, operation by operation, incl. refresh, reset, reopen, shared backing store, on the simulated disk / sqlite3'),
  'C17':('fault_enumeration','crash points of the interrupted store operation ENUMERATED from the simulated disk\'s op log (every disk op, every byte of small writes), process-crash and power-loss images, reopen + literal evaluation + further operations; SQL: every statement of save-and-increment failed in turn; histories are sampled'),
+ 'C18':('exploration','real Acceptor under clock jumps over days/weeks and time zones incl. DST changes; accept/refuse, logout at window end and store reset vs. an independent wall-clock calendar'),
  'C20':('exploration','timing oracle on the real run loop with real timers on simulated time'),
 }
 extra=json.load(open('/verif/claimed.json')) if False else {}
